@@ -157,6 +157,26 @@ MUTANTS = [
     (LI, "        for n_extent, n_intent in neighbors(extent, Objects=Objects):", "        for n_extent, n_intent in neighbors(intent, Objects=Objects):", ['lindig.lattice'], 'breaks'),
     (LI, "mapping[n_extent] = neighbor = (n_extent, n_intent, [], [extent])\n                push((n_extent.shortlex(), neighbor))",
          "mapping[n_extent] = (n_extent, n_intent, [], [extent])\n                push((n_extent.shortlex(), (n_extent, n_intent, [], [extent])))", ['lindig.lattice'], 'breaks'),
+    (LT, "            if c.objects:\n                c.objects.append(o)\n            else:\n                c.objects = [o]\n                touched.add(c)",
+         "            if not c.objects:\n                c.objects.append(o)\n            else:\n                c.objects = [o]\n                touched.add(c)", ['lattices._annotate'], 'breaks'),
+    (LT, "                c.objects = [o]\n                touched.add(c)", "                c.objects = [o]", ['lattices._annotate'], 'breaks'),
+    (LT, "            extent = context.extension(context.intension([o]), raw=True)", "            extent = context.extension(context.intension([o]))", ['lattices._annotate'], 'breaks'),
+    (LT, "        for c in touched:\n            c.properties = tuple(c.properties)", "        for c in touched:\n            c.objects = tuple(c.properties)", ['lattices._annotate'], 'breaks'),
+    (LT, "                c.properties = [p]\n                touched.add(c)", "                c.objects = [p]\n                touched.add(c)", ['lattices._annotate'], 'breaks'),
+    (LT, "        for p in context.properties:", "        for p in context.objects:", ['lattices._annotate'], 'breaks'),
+    (LT, "            lower = (mapping[l] for l in c.lower_neighbors)\n            c.upper_neighbors = tuple(sorted(upper, key=shortlex))",
+         "            lower = (mapping[l] for l in c.lower_neighbors)\n            c.upper_neighbors = tuple(sorted(upper, key=longlex))", ['lattices.__init__'], 'breaks'),
+    (LT, "            lower = (mapping[l] for l in c.lower_neighbors)\n            c.upper_neighbors = tuple(sorted(upper, key=shortlex))\n            c.lower_neighbors = tuple(sorted(lower, key=longlex))",
+         "            lower = (mapping[l] for l in c.lower_neighbors)\n            c.upper_neighbors = tuple(sorted(upper, key=shortlex))\n            c.lower_neighbors = tuple(sorted(upper, key=longlex))", ['lattices.__init__'], 'breaks'),
+    (LT, "            c.index = index\n            upper = (mapping[u] for u in c.upper_neighbors)", "            c.index = index + 1\n            upper = (mapping[u] for u in c.upper_neighbors)", ['lattices.__init__'], 'breaks'),
+    (LT, "            lower = (mapping[l] for l in c.lower_neighbors)\n            c.upper_neighbors = tuple(sorted(upper, key=shortlex))",
+         "            lower = (mapping[l] for l in c.upper_neighbors)\n            c.upper_neighbors = tuple(sorted(upper, key=shortlex))", ['lattices.__init__'], 'breaks'),
+    (LT, "        self._init(self, context, concepts, mapping=mapping)", "        self._init(self, context, concepts)", ['lattices.__init__'], 'breaks'),
+    (LT, "        for dindex, c in enumerate(sorted(inst._concepts, key=inst._longlex)):", "        for dindex, c in enumerate(sorted(inst._concepts, key=inst._shortlex)):", ['lattices._init'], 'breaks'),
+    (LT, "            c.atoms = tuple(a for a in atoms if e | a._extent == e)", "            c.atoms = tuple(a for a in atoms if e & a._extent)", ['lattices._init'], 'breaks'),
+    (LT, "            c.atoms = tuple(a for a in atoms if e | a._extent == e)", "            c.atoms = tuple(a for a in atoms if e & a._extent == a._extent)", ['lattices._init'], 'equivalent'),
+    (LT, "        inst.supremum.__class__ = Supremum\n        inst.infimum.__class__ = Infimum", "        inst.infimum.__class__ = Infimum\n        inst.supremum.__class__ = Supremum", ['lattices._init'], 'breaks'),
+    (LT, "            c.dindex = dindex\n", "            c.dindex = dindex + 1\n", ['lattices._init'], 'breaks'),
 ]
 
 
